@@ -474,7 +474,7 @@ gcsim("C12", "Concurrent Immix preserves the snapshot-at-the-beginning",
       level_text="The classic lost-object scenario is produced constantly by the generated programs (the only path to a snapshot object is deleted while marking runs); whatever interleavings the OS scheduler and the failpoints produce are observed.",
       note="Objects the SATB barrier cannot iterate (scan_object_and_trace_edges objects) and NonMoving objects (known finding) are not used under ConcurrentImmix.",
       design_ref="2/C12", shards=c12_shards,
-      floors={"quick": {"initial_mark_pauses": 20, "final_mark_pauses": 20, "snapshot_objects": 5000, "snapshot_objects_unreachable_at_final_mark_verified": 500}})
+      floors={"quick": {"initial_mark_pauses": 20, "final_mark_pauses": 20, "snapshot_objects": 5000, "snapshot_objects_unreachable_at_final_mark_verified": 500, "objects_allocated_during_concurrent_marking": 3000}})
 
 
 def sched_shards(tier, seed, salt, scenario=None, plans=None):
